@@ -190,7 +190,7 @@ class C13(Prop):
                    "an exact identifier under the EDIF policy may match case-insensitively (fast lookup) or "
                    "case-sensitively (name-map branches): both are accepted",
                    "the empty pattern is not generated"]
-    runs = {"quick": 2500, "thorough": 60000}
+    runs = {"quick": 3500, "thorough": 60000}
 
     def configure(self, rng, tier):
         cfg = hier_config(rng)
